@@ -167,6 +167,11 @@ def programs(prep):
         clsT3 = "class T { @tracked public qubit q; public T other; public constructor() -> T { this.other = null; } public function go() -> void { %s } }\n" % fbody3
         progs.append(Prog("alive-at-end-static-held:%s" % h, clsT3 + "static class Keep { public static T t; }\nfunction main() -> void { %sT t = new T(); t.go(); Keep.t = t; echo(\"e\"); }" % pad, [("T.q", [h])], 1))
         progs.append(Prog("alive-at-end-cycle:%s" % h, clsT3 + "function main() -> void { %sT a = new T(); T b = new T(); a.other = b; b.other = a; a.go(); b.go(); echo(\"e\"); }" % pad, [("T.q", [h]), ("T.q", [h])], 1))
+        subT = "class TSub extends T { public constructor() -> TSub { super(); } }\n"
+        progs.append(Prog("alive-at-end-cycle-of-subclass:%s" % h, clsT3 + subT + "function main() -> void { %sTSub a = new TSub(); TSub b = new TSub(); a.other = b; b.other = a; a.go(); b.go(); echo(\"e\"); }" % pad,
+                          [("T.q", [h]), ("T.q", [h])], 1, aliases={"TSub.q": "T.q"}))
+        progs.append(Prog("dropped-cycle-of-subclass:%s" % h, clsT3 + subT + "function burst() -> void { for (int i = 0; i < 20; i = i + 1) { T t = new T(); } }\nfunction mkc() -> void { TSub a = new TSub(); TSub b = new TSub(); a.other = b; b.other = a; a.go(); b.go(); }\nfunction main() -> void { %smkc(); echo(\"e\"); }" % pad,
+                          [("T.q", [h]), ("T.q", [h])], 1, aliases={"TSub.q": "T.q"}))
         sbody, _ = hist_stmts("S.q", h, prep)
         progs.append(Prog("tracked-static-field:%s" % h, "static class S { @tracked public static qubit q; }\nfunction main() -> void { %s%s echo(\"e\"); }" % (pad, sbody), [("S.q", [h])], 1))
     # (the base's field is left untouched: which of the two a base METHOD's 'this.q' means is not documented, so only the subclass's own
@@ -365,7 +370,7 @@ def main(tier):
                 base = p.expected
                 p.expected = (lambda b: (lambda outs: b([1] * len(outs))))(base)
         ps = [p for p in ps if not p.name.startswith("generic-two-instantiations")]    # two table names are acceptable there; compared at evaluator level only
-        sel = ps if tier == "thorough" else [p for p in ps if p.name.split(":")[0] in ("main", "for2", "helper2", "field-overwrite", "field-null", "two-sites", "array-measure-all", "block", "untracked", "field-reuse", "local-after-release", "borrow-array-after", "borrow-qubit", "stale-handle-then-tracked", "stale-handle-then-tracked-field", "field-owned-by-dropped-cycle", "inherited-field", "multi-declaration", "alive-at-end-static-held", "alive-at-end-cycle", "tracked-static-field", "same-name-field-in-subclass") or p.name.startswith("array:M")]
+        sel = ps if tier == "thorough" else [p for p in ps if p.name.split(":")[0] in ("main", "for2", "helper2", "field-overwrite", "field-null", "two-sites", "array-measure-all", "block", "untracked", "field-reuse", "local-after-release", "borrow-array-after", "borrow-qubit", "stale-handle-then-tracked", "stale-handle-then-tracked-field", "field-owned-by-dropped-cycle", "inherited-field", "multi-declaration", "alive-at-end-static-held", "alive-at-end-cycle", "alive-at-end-cycle-of-subclass", "dropped-cycle-of-subclass", "tracked-static-field", "same-name-field-in-subclass") or p.name.startswith("array:M")]
         modes = [("none", None, None)] + [("flag", n, None) for n in (1, 2, 3)] + [("ann", None, n) for n in (1, 2, 3)] + [("both-eq", 2, 2), ("both-diff", 3, 2), ("both-diff", 1, 3), ("both-diff", 2, 1)]
         echos = [None, "auto", "all", "none"]
         for p in sel:
